@@ -3,6 +3,7 @@ CONSTANTS
   Depth = 1
   ChainDepth = 4
   SkipAllVClose = FALSE
+  IfGuard = TRUE
   Emit = FALSE
 INVARIANTS MeaningKept OnlyBracesGo EmitTree
 CHECK_DEADLOCK FALSE
